@@ -106,7 +106,9 @@ def run_case(chk: Check, sc: Scratch, idx: int) -> None:
     rng = chk.subrng("case", idx)
     depth = rng.choice([b"", b"d1", b"d1/d2", b"d1/d2/d3", b"site.gophermap", b"d1/old.gophermap"])
     as_file = rng.random() < 0.25
-    existing = [b"real.txt", b"pic.gif", b"sub dir", b"page.html"]
+    # (names that look like 'scheme:rest' are ordinary relative names: only the literal prefix URL: is special)
+    existing = [b"real.txt", b"pic.gif", b"sub dir", b"page.html", b"irc:today.txt", b"c:autoexec.bat", b"mailto:list", b"url:lower.txt",
+                b"URL", b"x:y/z.txt"]
     t = Tree()
     dpath = depth
     if dpath:
@@ -116,6 +118,8 @@ def run_case(chk: Check, sc: Scratch, idx: int) -> None:
     t.file(pre + b"pic.gif", "GIF89a")
     t.file(pre + b"sub dir/deeper.txt", "deeper\n")
     t.file(pre + b"page.html", "<html><title>Page Title</title></html>")
+    for extra in (b"irc:today.txt", b"c:autoexec.bat", b"mailto:list", b"url:lower.txt", b"URL", b"x:y/z.txt"):
+        t.file(pre + extra, "scheme-like name\n")
     text = gen_map(rng, existing, allow_relative=not as_file)
     if as_file:
         t.file(pre + b"menu.gophermap", text)
